@@ -549,6 +549,8 @@ func (m *Dense) Stack(a, b Matrix) {
 	}
 
 	m.reuseAsNonZeroed(ar+br, ac)
+	m.checkOverlapMatrix(a)
+	m.checkOverlapMatrix(b)
 
 	m.Copy(a)
 	w := m.slice(ar, ar+br, 0, bc)
@@ -567,6 +569,8 @@ func (m *Dense) Augment(a, b Matrix) {
 	}
 
 	m.reuseAsNonZeroed(ar, ac+bc)
+	m.checkOverlapMatrix(a)
+	m.checkOverlapMatrix(b)
 
 	m.Copy(a)
 	w := m.slice(0, br, ac, ac+bc)
